@@ -25,7 +25,13 @@ type node struct {
 	head  string // e.g. monoid.Option (the constructor a defect is attributed to)
 	depth int
 	kids  []*node
-	dom   []any
+	// dom is a prototype of the value domain, used for sizes and for printing only: it is never
+	// handed to the library. mk builds the domain FRESH (new backing arrays, new maps, new
+	// pointers) and is called at the start of every execution, so that an instance that writes
+	// into an operand (e.g. into the spare capacity of a slice) cannot carry state from one
+	// execution to the next and is caught inside the execution that does it.
+	dom []any
+	mk  func() []any
 
 	combine func(a, b any) any
 	empty   func() any // nil for a semigroup
@@ -61,7 +67,7 @@ func finishS[T any](n *node, sg fp.Semigroup[T]) *inst[T] {
 	return &inst[T]{n, nil, sg}
 }
 
-func newNode(pkg, ctor string, dom []any, eqv func(a, b any) bool, show func(any) string, kids ...*node) *node {
+func newNode(pkg, ctor string, mkDom func() []any, eqv func(a, b any) bool, show func(any) string, kids ...*node) *node {
 	names := make([]string, len(kids))
 	depth := 0
 	for j, k := range kids {
@@ -75,49 +81,102 @@ func newNode(pkg, ctor string, dom []any, eqv func(a, b any) bool, show func(any
 	if len(kids) > 0 {
 		name = head + "(" + strings.Join(names, ",") + ")"
 	}
-	if len(dom) > domCap {
-		dom = dom[:domCap]
+	mk := func() []any {
+		d := mkDom()
+		if len(d) > domCap {
+			d = d[:domCap]
+		}
+		return d
 	}
-	return &node{name: name, pkg: pkg, head: head, depth: depth, kids: kids, dom: dom, eqv: eqv, show: show}
+	return &node{name: name, pkg: pkg, head: head, depth: depth, kids: kids, dom: mk(), mk: mk, eqv: eqv, show: show}
 }
+
+// fixed wraps a domain of immutable values (numbers, strings, bools, unit types).
+func fixed[T any](s []T) func() []any { return func() []any { return anys(s) } }
 
 const domCap = 6
 
-// law is the whole oracle for one triple; "" = holds.
-func (n *node) law(ia, ib, ic int) (law, msg string) {
-	a, b, c := n.dom[ia], n.dom[ib], n.dom[ic]
-	sa, sb, sc := n.show(a), n.show(b), n.show(c)
+// law is the whole oracle for one triple; "" = holds. The domain is built fresh; ALL results are
+// computed first and compared afterwards. Besides the algebraic laws it demands that Combine and
+// Empty behave as functions of values: a result that was returned must not change when Combine is
+// called again later (result-changed-later), and no operand — including the part of its backing
+// array beyond its length, which other live values may share — may be written (operand-modified).
+func (n *node) law(ia, ib, ic int) (law, msg, outcome string) {
+	dom := n.mk()
+	a, b, c := dom[ia], dom[ib], dom[ic]
+	before := make([]string, len(dom))
+	for i, v := range dom {
+		before[i] = n.show(v)
+	}
+	sa, sb, sc := before[ia], before[ib], before[ic]
 	defer func() {
 		if r := recover(); r != nil {
 			law, msg = "panic", fmt.Sprintf("%s panicked on a=%s b=%s c=%s: %v", n.name, sa, sb, sc, r)
 		}
 	}()
-	ab := n.combine(a, b)
-	if !n.noAssoc {
-		l, r := n.combine(ab, c), n.combine(a, n.combine(b, c))
-		if !n.eqv(l, r) {
-			return "associative", fmt.Sprintf("%s: Combine(Combine(a,b),c)=%s but Combine(a,Combine(b,c))=%s for a=%s b=%s c=%s", n.name, n.show(l), n.show(r), sa, sb, sc)
+	type result struct {
+		what string
+		v    any
+		s    string
+	}
+	var results []*result
+	call := func(what string, x, y any) any {
+		v := n.combine(x, y)
+		results = append(results, &result{what, v, n.show(v)})
+		return v
+	}
+	ab := call("Combine(a,b)", a, b)
+	bc := call("Combine(b,c)", b, c)
+	l := call("Combine(Combine(a,b),c)", ab, c)
+	r := call("Combine(a,Combine(b,c))", a, bc)
+	var e, ea, ae any
+	if n.empty != nil {
+		e = n.empty()
+		results = append(results, &result{"Empty()", e, n.show(e)})
+		ea = call("Combine(Empty(),a)", e, a)
+		ae = call("Combine(a,Empty())", a, e)
+	}
+	// later calls with the same left operands, then everything is looked at again
+	call("Combine(a,c)", a, c)
+	call("Combine(Combine(a,b),b)", ab, b)
+	call("Combine(b,a)", b, a)
+	outcome = results[2].s
+	for _, res := range results {
+		if now := n.show(res.v); now != res.s {
+			return "result-changed-later", fmt.Sprintf("%s: %s returned %s, but after later Combine calls the same value reads %s (a=%s b=%s c=%s)", n.name, res.what, res.s, now, sa, sb, sc), outcome
 		}
 	}
-	if n.empty != nil {
-		e := n.empty()
-		if l := n.combine(e, a); !n.eqv(l, a) {
-			return "left-identity", fmt.Sprintf("%s: Combine(Empty(),a)=%s for a=%s (Empty()=%s)", n.name, n.show(l), sa, n.show(e))
+	for i, v := range dom {
+		if now := n.show(v); now != before[i] {
+			return "operand-modified", fmt.Sprintf("%s: the domain value %s reads %s after Combine was called on a=%s b=%s c=%s (Combine wrote into an operand or into storage it shares)", n.name, before[i], now, sa, sb, sc), outcome
 		}
-		if r := n.combine(a, e); !n.eqv(r, a) {
-			return "right-identity", fmt.Sprintf("%s: Combine(a,Empty())=%s for a=%s (Empty()=%s)", n.name, n.show(r), sa, n.show(e))
+	}
+	if !n.noAssoc && !n.eqv(l, r) {
+		return "associative", fmt.Sprintf("%s: Combine(Combine(a,b),c)=%s but Combine(a,Combine(b,c))=%s for a=%s b=%s c=%s", n.name, n.show(l), n.show(r), sa, sb, sc), outcome
+	}
+	if n.empty != nil {
+		if !n.eqv(ea, a) {
+			return "left-identity", fmt.Sprintf("%s: Combine(Empty(),a)=%s for a=%s (Empty()=%s)", n.name, n.show(ea), sa, n.show(e)), outcome
+		}
+		if !n.eqv(ae, a) {
+			return "right-identity", fmt.Sprintf("%s: Combine(a,Empty())=%s for a=%s (Empty()=%s)", n.name, n.show(ae), sa, n.show(e)), outcome
+		}
+		if e2 := n.empty(); !n.eqv(e, e2) {
+			return "empty-changed", fmt.Sprintf("%s: Empty() returned %s and later %s", n.name, n.show(e), n.show(e2)), outcome
 		}
 		if n.meaningEmpty != nil && !n.eqv(e, n.meaningEmpty) {
-			return "meaning", fmt.Sprintf("%s: Empty()=%s but %s has the neutral element %s", n.name, n.show(e), n.meaningWhat, n.show(n.meaningEmpty))
+			return "meaning", fmt.Sprintf("%s: Empty()=%s but %s has the neutral element %s", n.name, n.show(e), n.meaningWhat, n.show(n.meaningEmpty)), outcome
 		}
 	}
 	if n.meaning != nil {
-		want, alt, hasAlt := n.meaning(a, b)
+		// the reference works on yet another fresh copy of the operands
+		d2 := n.mk()
+		want, alt, hasAlt := n.meaning(d2[ia], d2[ib])
 		if !n.eqv(ab, want) && !(hasAlt && n.eqv(ab, alt)) {
-			return "meaning", fmt.Sprintf("%s: Combine(a,b)=%s but %s gives %s for a=%s b=%s", n.name, n.show(ab), n.meaningWhat, n.show(want), sa, sb)
+			return "meaning", fmt.Sprintf("%s: Combine(a,b)=%s but %s gives %s for a=%s b=%s", n.name, n.show(ab), n.meaningWhat, n.show(want), sa, sb), outcome
 		}
 	}
-	return "", ""
+	return "", "", outcome
 }
 
 func (n *node) selfcheck() string {
@@ -129,7 +188,7 @@ outer:
 	for a := range n.dom {
 		for b := range n.dom {
 			for c := range n.dom {
-				if l, _ := n.law(a, b, c); l != "" {
+				if l, _, _ := n.law(a, b, c); l != "" {
 					res = l
 					break outer
 				}
@@ -187,19 +246,19 @@ func isFloat[T any]() bool {
 
 func sumNode[T fp.ImplicitOrd](pkg, tname string, dom []T) *node {
 	var zero T
-	n := named(newNode(pkg, "Sum["+tname+"]", anys(dom), eqComparable[T], showV), "addition (modulo overflow)", zero, func(a, b any) any { return a.(T) + b.(T) })
+	n := named(newNode(pkg, "Sum["+tname+"]", fixed(dom), eqComparable[T], showV), "addition (modulo overflow)", zero, func(a, b any) any { return a.(T) + b.(T) })
 	n.noAssoc = isFloat[T]()
 	return n
 }
 
 func productNode[T fp.ImplicitNum](pkg, tname string, dom []T) *node {
-	n := named(newNode(pkg, "Product["+tname+"]", anys(dom), eqComparable[T], showV), "multiplication (modulo overflow)", T(1), func(a, b any) any { return a.(T) * b.(T) })
+	n := named(newNode(pkg, "Product["+tname+"]", fixed(dom), eqComparable[T], showV), "multiplication (modulo overflow)", T(1), func(a, b any) any { return a.(T) * b.(T) })
 	n.noAssoc = isFloat[T]()
 	return n
 }
 
 func boolNode(pkg, ctor, what string, emptyV bool, f func(a, b bool) bool) *node {
-	return named(newNode(pkg, ctor, anys([]bool{false, true}), eqComparable[bool], showV), what, emptyV, func(a, b any) any { return f(a.(bool), b.(bool)) })
+	return named(newNode(pkg, ctor, fixed([]bool{false, true}), eqComparable[bool], showV), what, emptyV, func(a, b any) any { return f(a.(bool), b.(bool)) })
 }
 
 var intDom = []int{0, 1, 2, -1, math.MaxInt, math.MinInt}
@@ -218,30 +277,46 @@ func seqEq[T comparable](a, b []T) bool {
 	return true
 }
 
+// showSlice prints the elements and, after a bar, the rest of the backing array up to the
+// capacity: it is the snapshot used to see writes into spare capacity.
 func showSlice[T any](s []T) string {
 	if s == nil {
 		return "nil"
 	}
+	if cap(s) > len(s) {
+		return fmt.Sprintf("%v|spare%v", s, s[len(s):cap(s)])
+	}
 	return fmt.Sprint(s)
 }
 
-var intSeqs = [][]int{nil, {}, {1}, {2}, {1, 2}, {2, 1}}
+// freshIntSeqs: nil, empty, tight slices, and operands with SPARE CAPACITY that are sub-slices
+// of a larger live array (two of them of the same array), built anew on every call.
+func freshIntSeqs() [][]int {
+	base := []int{1, 2, 3, 4}
+	other := []int{2, 9, 8}
+	grown := append(make([]int, 0, 4), 2, 1)
+	return [][]int{nil, base[:1], base[:2], other[:1], grown, {}}
+}
+
+func concatInts(a, b []int) []int { return append(append([]int{}, a...), b...) }
 
 func mergeSeqI() *inst[fp.Seq[int]] {
-	var dom []any
-	for _, s := range intSeqs {
-		dom = append(dom, fp.Seq[int](s))
+	mk := func() []any {
+		var dom []any
+		for _, s := range freshIntSeqs() {
+			dom = append(dom, fp.Seq[int](s))
+		}
+		return dom
 	}
-	n := named(newNode("monoid", "MergeSeq[int]", dom, func(a, b any) bool { return seqEq(a.(fp.Seq[int]), b.(fp.Seq[int])) }, func(v any) string { return showSlice(v.(fp.Seq[int])) }),
-		"concatenation (a then b)", fp.Seq[int]{}, func(a, b any) any {
-			return fp.Seq[int](append(append([]int{}, a.(fp.Seq[int])...), b.(fp.Seq[int])...))
-		})
+	n := named(newNode("monoid", "MergeSeq[int]", mk, func(a, b any) bool { return seqEq(a.(fp.Seq[int]), b.(fp.Seq[int])) }, func(v any) string { return showSlice(v.(fp.Seq[int])) }),
+		"concatenation (a then b)", fp.Seq[int]{}, func(a, b any) any { return fp.Seq[int](concatInts(a.(fp.Seq[int]), b.(fp.Seq[int]))) })
 	return finishM(n, monoid.MergeSeq[int]())
 }
 
 func mergeSliceI() *inst[[]int] {
-	n := named(newNode("monoid", "MergeSlice[int]", anys(intSeqs), func(a, b any) bool { return seqEq(a.([]int), b.([]int)) }, func(v any) string { return showSlice(v.([]int)) }),
-		"concatenation (a then b)", []int{}, func(a, b any) any { return append(append([]int{}, a.([]int)...), b.([]int)...) })
+	mk := func() []any { return anys(freshIntSeqs()) }
+	n := named(newNode("monoid", "MergeSlice[int]", mk, func(a, b any) bool { return seqEq(a.([]int), b.([]int)) }, func(v any) string { return showSlice(v.([]int)) }),
+		"concatenation (a then b)", []int{}, func(a, b any) any { return concatInts(a.([]int), b.([]int)) })
 	return finishM(n, monoid.MergeSlice[int]())
 }
 
@@ -287,18 +362,21 @@ func unionRight(a, b kv) kv {
 }
 
 func mergeGoMapI() *inst[kv] {
-	var dom []any
-	for _, sh := range kvShapes {
-		var m kv
-		if sh != nil {
-			m = kv{}
-			for _, e := range sh {
-				m[e[0].(string)] = e[1].(int)
+	mk := func() []any {
+		var dom []any
+		for _, sh := range kvShapes {
+			var m kv
+			if sh != nil {
+				m = kv{}
+				for _, e := range sh {
+					m[e[0].(string)] = e[1].(int)
+				}
 			}
+			dom = append(dom, m)
 		}
-		dom = append(dom, m)
+		return dom
 	}
-	n := named(newNode("monoid", "MergeGoMap[string,int]", dom, func(a, b any) bool { return kvEq(a.(kv), b.(kv)) }, func(v any) string { return showKV(v.(kv)) }),
+	n := named(newNode("monoid", "MergeGoMap[string,int]", mk, func(a, b any) bool { return kvEq(a.(kv), b.(kv)) }, func(v any) string { return showKV(v.(kv)) }),
 		"union, the right operand wins on a common key", kv{}, func(a, b any) any { return unionRight(a.(kv), b.(kv)) })
 	return finishM(n, monoid.MergeGoMap[string, int]())
 }
@@ -325,16 +403,19 @@ func kvToFpMap(m kv, base fp.Map[string, int]) fp.Map[string, int] {
 }
 
 func mergeMapI() *inst[fp.Map[string, int]] {
-	var dom []any
-	for j, sh := range kvShapes {
-		var m fp.Map[string, int] // zero value
-		if sh != nil && j != 3 {
-			m = immutable.Map[string, int](hash.String)
+	mk := func() []any {
+		var dom []any
+		for j, sh := range kvShapes {
+			var m fp.Map[string, int] // zero value
+			if sh != nil && j != 3 {
+				m = immutable.Map[string, int](hash.String)
+			}
+			for _, e := range sh {
+				m = m.Updated(e[0].(string), e[1].(int))
+			}
+			dom = append(dom, m)
 		}
-		for _, e := range sh {
-			m = m.Updated(e[0].(string), e[1].(int))
-		}
-		dom = append(dom, m)
+		return dom
 	}
 	show := func(v any) string {
 		m := v.(fp.Map[string, int])
@@ -346,7 +427,7 @@ func mergeMapI() *inst[fp.Map[string, int]] {
 		}
 		return "fp.Map/" + kind + showKV(fpMapToKV(m))
 	}
-	n := named(newNode("monoid", "MergeMap[string,int]", dom, func(a, b any) bool {
+	n := named(newNode("monoid", "MergeMap[string,int]", mk, func(a, b any) bool {
 		return kvEq(fpMapToKV(a.(fp.Map[string, int])), fpMapToKV(b.(fp.Map[string, int])))
 	}, show),
 		"union, the right operand wins on a common key", fp.Map[string, int]{}, func(a, b any) any {
@@ -366,7 +447,9 @@ func setToKV(s fp.Set[int]) kv {
 func mergeSetI() *inst[fp.Set[int]] {
 	hs := hash.Number[int]()
 	var zero fp.Set[int]
-	dom := []any{zero, immutable.Set(hs), immutable.Set(hs, 1), zero.Incl(2), immutable.Set(hs, 1, 2), immutable.Set(hs, 2, 3)}
+	mk := func() []any {
+		return []any{zero, immutable.Set(hs), immutable.Set(hs, 1), zero.Incl(2), immutable.Set(hs, 1, 2), immutable.Set(hs, 2, 3)}
+	}
 	show := func(v any) string {
 		var ks []string
 		for k := range setToKV(v.(fp.Set[int])) {
@@ -375,7 +458,7 @@ func mergeSetI() *inst[fp.Set[int]] {
 		sort.Strings(ks)
 		return "Set{" + strings.Join(ks, " ") + "}"
 	}
-	n := named(newNode("monoid", "MergeSet[int]", dom, func(a, b any) bool { return kvEq(setToKV(a.(fp.Set[int])), setToKV(b.(fp.Set[int]))) }, show),
+	n := named(newNode("monoid", "MergeSet[int]", mk, func(a, b any) bool { return kvEq(setToKV(a.(fp.Set[int])), setToKV(b.(fp.Set[int]))) }, show),
 		"set union", zero, func(a, b any) any {
 			out := immutable.Set(hs)
 			for _, s := range []fp.Set[int]{a.(fp.Set[int]), b.(fp.Set[int])} {
@@ -416,7 +499,7 @@ func endoDom() []any {
 
 // "Endo composes": the property does not fix the order, so either f after g or g after f is accepted
 func endoNode(pkg string) *node {
-	n := newNode(pkg, "Endo[int]", endoDom(), endoEq, endoShow)
+	n := newNode(pkg, "Endo[int]", endoDom, endoEq, endoShow)
 	n.meaningWhat = "function composition"
 	n.meaningEmpty = fp.Endo[int](func(x int) int { return x })
 	n.meaning = func(a, b any) (any, any, bool) {
@@ -457,12 +540,14 @@ func optShow(k *node, get func(any) (any, bool), none, pre, post string) func(an
 	}
 }
 
-func optionDom[T any](k *node) []any {
-	dom := []any{fp.None[T]()}
-	for _, v := range k.dom {
-		dom = append(dom, fp.Some(v.(T)))
+func optionDom[T any](k *node) func() []any {
+	return func() []any {
+		dom := []any{fp.None[T]()}
+		for _, v := range k.mk() {
+			dom = append(dom, fp.Some(v.(T)))
+		}
+		return dom
 	}
-	return dom
 }
 
 func optionOf[T any](k *inst[T]) *inst[fp.Option[T]] {
@@ -478,11 +563,14 @@ func sgOptionOf[T any](k *inst[T]) *inst[fp.Option[T]] {
 var errA, errB = errors.New("errA"), errors.New("errB")
 
 func tryOf[T any](k *inst[T]) *inst[fp.Try[T]] {
-	dom := []any{fp.Failure[T](errA), fp.Failure[T](errB)}
-	for _, v := range k.n.dom {
-		dom = append(dom, fp.Success(v.(T)))
+	mk := func() []any {
+		dom := []any{fp.Failure[T](errA), fp.Failure[T](errB)}
+		for _, v := range k.n.mk() {
+			dom = append(dom, fp.Success(v.(T)))
+		}
+		dom[0], dom[2] = dom[2], dom[0] // a success first
+		return dom
 	}
-	dom[0], dom[2] = dom[2], dom[0] // a success first
 	eqv := func(a, b any) bool {
 		x, y := a.(fp.Try[T]), b.(fp.Try[T])
 		if x.IsSuccess() != y.IsSuccess() {
@@ -500,16 +588,19 @@ func tryOf[T any](k *inst[T]) *inst[fp.Try[T]] {
 		}
 		return "Failure(" + x.Failed().Get().Error() + ")"
 	}
-	n := newNode("monoid", "Try", dom, eqv, show, k.n)
+	n := newNode("monoid", "Try", mk, eqv, show, k.n)
 	return finishM(n, monoid.Try(k.m))
 }
 
 func dualNode[T any](pkg string, k *node) *node {
-	var dom []any
-	for _, v := range k.dom {
-		dom = append(dom, fp.Dual[T]{GetDual: v.(T)})
+	mk := func() []any {
+		var dom []any
+		for _, v := range k.mk() {
+			dom = append(dom, fp.Dual[T]{GetDual: v.(T)})
+		}
+		return dom
 	}
-	n := newNode(pkg, "Dual", dom, func(a, b any) bool { return k.eqv(a.(fp.Dual[T]).GetDual, b.(fp.Dual[T]).GetDual) },
+	n := newNode(pkg, "Dual", mk, func(a, b any) bool { return k.eqv(a.(fp.Dual[T]).GetDual, b.(fp.Dual[T]).GetDual) },
 		func(v any) string { return "Dual{" + k.show(v.(fp.Dual[T]).GetDual) + "}" }, k)
 	n.meaningWhat = "the component's Combine with the operands flipped"
 	n.meaning = func(a, b any) (any, any, bool) {
@@ -527,16 +618,19 @@ func sgDualOf[T any](k *inst[T]) *inst[fp.Dual[T]] {
 }
 
 func evalNode[T any](pkg string, k *node) *node {
-	var dom []any
-	for j, v := range k.dom {
-		t := v.(T)
-		if j%2 == 0 {
-			dom = append(dom, lazy.Done(t))
-		} else {
-			dom = append(dom, lazy.Call(func() T { return t }))
+	mk := func() []any {
+		var dom []any
+		for j, v := range k.mk() {
+			t := v.(T)
+			if j%2 == 0 {
+				dom = append(dom, lazy.Done(t))
+			} else {
+				dom = append(dom, lazy.Call(func() T { return t }))
+			}
 		}
+		return dom
 	}
-	return newNode(pkg, "Eval", dom, func(a, b any) bool { return k.eqv(a.(lazy.Eval[T]).Get(), b.(lazy.Eval[T]).Get()) },
+	return newNode(pkg, "Eval", mk, func(a, b any) bool { return k.eqv(a.(lazy.Eval[T]).Get(), b.(lazy.Eval[T]).Get()) },
 		func(v any) string { return "Eval(" + k.show(v.(lazy.Eval[T]).Get()) + ")" }, k)
 }
 
@@ -549,10 +643,13 @@ func sgEvalOf[T any](k *inst[T]) *inst[lazy.Eval[T]] {
 }
 
 func ptrNode[T any](pkg string, k *node) *node {
-	dom := []any{(*T)(nil)}
-	for _, v := range k.dom {
-		t := v.(T)
-		dom = append(dom, &t)
+	mk := func() []any {
+		dom := []any{(*T)(nil)}
+		for _, v := range k.mk() {
+			t := v.(T)
+			dom = append(dom, &t)
+		}
+		return dom
 	}
 	get := func(v any) (any, bool) {
 		p := v.(*T)
@@ -561,7 +658,7 @@ func ptrNode[T any](pkg string, k *node) *node {
 		}
 		return *p, true
 	}
-	return newNode(pkg, "Ptr", dom, optEq(k, get), optShow(k, get, "nil", "&", ""), k)
+	return newNode(pkg, "Ptr", mk, optEq(k, get), optShow(k, get, "nil", "&", ""), k)
 }
 
 func ptrOf[T any](k *inst[T]) *inst[*T] {
@@ -579,11 +676,14 @@ func boxIt[T any](v T) box[T]   { return box[T]{v} }
 func unboxIt[T any](b box[T]) T { return b.v }
 
 func boxNode[T any](pkg string, k *node) *node {
-	var dom []any
-	for _, v := range k.dom {
-		dom = append(dom, box[T]{v.(T)})
+	mk := func() []any {
+		var dom []any
+		for _, v := range k.mk() {
+			dom = append(dom, box[T]{v.(T)})
+		}
+		return dom
 	}
-	return newNode(pkg, "IMap", dom, func(a, b any) bool { return k.eqv(a.(box[T]).v, b.(box[T]).v) }, func(v any) string { return "box{" + k.show(v.(box[T]).v) + "}" }, k)
+	return newNode(pkg, "IMap", mk, func(a, b any) bool { return k.eqv(a.(box[T]).v, b.(box[T]).v) }, func(v any) string { return "box{" + k.show(v.(box[T]).v) + "}" }, k)
 }
 
 func imapOf[T any](k *inst[T]) *inst[box[T]] {
@@ -618,25 +718,31 @@ func prodShow(kids []*node, split func(any) []any, open, sep, close string) func
 }
 
 func tuple2Of[T any](k *inst[T]) *inst[fp.Tuple2[T, T]] {
-	var dom []any
-	d := k.n.dom
-	for j := range d {
-		dom = append(dom, as.Tuple2(d[j].(T), d[(j+1)%len(d)].(T)))
+	mk := func() []any {
+		var dom []any
+		d, d2 := k.n.mk(), k.n.mk()
+		for j := range d {
+			dom = append(dom, as.Tuple2(d[j].(T), d2[(j+1)%len(d)].(T)))
+		}
+		return dom
 	}
 	split := func(v any) []any { t := v.(fp.Tuple2[T, T]); return []any{t.I1, t.I2} }
 	kids := []*node{k.n, k.n}
-	n := newNode("monoid", "Tuple2", dom, prodEq(kids, split), prodShow(kids, split, "(", ",", ")"), kids...)
+	n := newNode("monoid", "Tuple2", mk, prodEq(kids, split), prodShow(kids, split, "(", ",", ")"), kids...)
 	return finishM(n, monoid.Tuple2(k.m, k.m))
 }
 
 func hconsOf[T any](k *inst[T], nilI *inst[hlist.Nil]) *inst[hlist.Cons[T, hlist.Nil]] {
-	var dom []any
-	for _, v := range k.n.dom {
-		dom = append(dom, hlist.Concat(v.(T), hlist.Empty()))
+	mk := func() []any {
+		var dom []any
+		for _, v := range k.n.mk() {
+			dom = append(dom, hlist.Concat(v.(T), hlist.Empty()))
+		}
+		return dom
 	}
 	split := func(v any) []any { c := v.(hlist.Cons[T, hlist.Nil]); return []any{c.Head(), hlist.Tail(c)} }
 	kids := []*node{k.n, nilI.n}
-	n := newNode("monoid", "HCons", dom, prodEq(kids, split), prodShow(kids, split, "", "::", ""), kids...)
+	n := newNode("monoid", "HCons", mk, prodEq(kids, split), prodShow(kids, split, "", "::", ""), kids...)
 	return finishM(n, monoid.HCons(k.m, nilI.m))
 }
 
